@@ -511,6 +511,29 @@ def rule_p6(ctx, F):
         ctx.bad("P6", "needs_recompile:compares-modification-times", "needs_recompile no longer reads the modification times of both the library and the sources")
 
 
+LOSSY_TIME = ("::as_secs", "::as_millis", "::as_micros", "::subsec", "::duration_since", "::elapsed", "as_secs_f")
+
+
+def rule_p7(ctx, F):
+    """P7: the freshness comparison is made on the timestamps as the file system reports them.  `needs_recompile` says
+    "stale" only if a source is strictly newer than the library, so any rounding of the two times (to whole seconds,
+    say) makes a source that was regenerated within the same unit look not newer, and every loader keeps a stale library."""
+    fn = ctx.need_fn(F, "mtime", "P7")
+    if not fn:
+        return
+    chain = [fn] + [f for f in F.fn_list if f.name.startswith(fn.name + "::{closure")]
+    g = F.fns.get("needs_recompile") or next((f for f in F.fn_list if f.name.endswith("needs_recompile")), None)
+    if g is not None:
+        chain.append(g)
+    lossy = [(f.name, c.get("fn")) for f in chain for pt, c in f.calls() if any(x in (c.get("fn") or "") for x in LOSSY_TIME)]
+    ret = str(fn.ret or "")
+    if lossy or "SystemTime" not in ret:
+        ctx.bad("P7", "mtime:full-precision", "the modification times compared by needs_recompile are %s: a source rewritten within the same unit of time as the library is taken "
+                "for not newer and the stale library is loaded" % ("converted by %s in %s" % (lossy[0][1], lossy[0][0]) if lossy else "returned as `%s` instead of SystemTime" % ret[:60]))
+    else:
+        ctx.ok("P7", "mtime:full-precision", "mtime returns the file system's SystemTime unchanged (no conversion to seconds etc. in mtime / needs_recompile)")
+
+
 def run(ctx):
     ctx.config = "rust"
     F = ctx.extract.rsfacts("tree_sitter_loader")
@@ -524,6 +547,7 @@ def run(ctx):
     rule_p4(ctx, F)
     rule_p5(ctx, F)
     rule_p6(ctx, F)
+    rule_p7(ctx, F)
     return ctx.finish(
         "Protocol-shape rules over rustc MIR of tree-sitter-loader (non-unwind edges): compile only in the Some arm of LockFile::create and never after waiting; the lock is dropped on "
         "every path out and before loading; compilers write temp_path(output) and rename only after every tool run succeeded, removing the temp file on failure; create_new / remove-on-drop / "
